@@ -468,3 +468,236 @@ Proof.
     destruct Hnd' as [Hx|(Hq & Hi)]; [congruence|].
     destruct (s_queue s) as [|q qs]; [congruence|]. destruct (s_idle s) as [|i is]; [destruct Hi | discriminate].
 Qed.
+
+(** * several calls on one Exchange; calls ended by the caller's context or by Exchange.Stop
+
+    [case05m] is a world with one Exchange and a list of GetRangeByHeight calls made one after the
+    other. Each call carries its own log; a call may carry an END MARKER: the caller's context was
+    cancelled / Exchange.Stop was called after the last logged answer had been processed, while the
+    call was still waiting (the gated drivers release one answer at a time). The marker is replayed
+    as the model event [ECtxDone] / [EStop]. A peer whose answer was refused with an error other
+    than NOT_FOUND / empty is blocked by the peer tracker (blockPeer): the next call's session
+    starts without it. *)
+
+Inductive endev := EndCtx | EndStop.
+
+Definition end_event (e : endev) : event := match e with EndCtx => ECtxDone | EndStop => EStop end.
+
+Record call05 := Call05 { q_from : hdr; q_to : N; q_log : list logev; q_end : option endev; q_obs : obs }.
+
+Record case05m := Case05m {
+  m_drift : Z; m_trust : N; m_maxcap : N; m_per : N; m_peers : list N; m_calls : list call05 }.
+
+Definition base05 (c : case05m) (peers : list N) (q : call05) : case05 :=
+  Case05 (m_drift c) (m_trust c) (m_maxcap c) (m_per c) (q_from q) (q_to q) peers (q_log q) (q_obs q).
+
+(** the events of a call: its log, then its end marker *)
+Definition call_events (l : list logev) (en : option endev) : list event :=
+  log_events l ++ match en with Some e => [end_event e] | None => [] end.
+
+(** with an end marker the call must still be waiting (model: no result yet) when it is ended *)
+Definition model_call (b : case05) (en : option endev) : option obs :=
+  match en with
+  | None => model05 b
+  | Some e =>
+    let tv := vhdr_tvp (k_trust b) in
+    let '(s, consistent) :=
+      replay (k_drift b) tv (k_maxcap b) (k_from b)
+             (get_range (k_maxcap b) (k_per b) (k_from b) (k_to b) (k_peers b)) (k_log b) in
+    if consistent then
+      match s_res s with
+      | None => model_obs false (step_p (k_drift b) tv (k_maxcap b) (k_from b) s (end_event e))
+      | Some _ => None
+      end
+    else None
+  end.
+
+(** peers blocked during a call: doRequest's default error branch (peerTracker.blockPeer) *)
+Definition blocked_by (b : case05) : list N :=
+  flat_map (fun e =>
+    match do_request_p (l_now e) (k_drift b) (vhdr_tvp (k_trust b)) (k_from b)
+                       (Req (l_origin e) (l_amount e)) (l_frames e) with
+    | DErr POther => [l_peer e]
+    | _ => []
+    end) (k_log b).
+
+Definition unblocked (b : case05) (peers : list N) : list N :=
+  filter (fun p => negb (existsb (N.eqb p) (blocked_by b))) peers.
+
+Fixpoint agree_calls (c : case05m) (peers : list N) (qs : list call05) : bool :=
+  match qs with
+  | [] => true
+  | q :: rest =>
+    let b := base05 c peers q in
+    wf05 b
+    && match model_call b (q_end q) with Some o => obs_eqb o (q_obs q) | None => false end
+    && match q_end q with Some EndStop => is_nil rest | _ => true end   (* no call after Stop *)
+    && agree_calls c (unblocked b peers) rest
+  end.
+
+Definition agree05m (c : case05m) : bool := agree_calls c (m_peers c) (m_calls c).
+
+Definition ok05m (c : case05m) : bool := forallb (fun q => ok05 (base05 c [] q)) (m_calls c).
+
+Definition chk05m (c : case05m) : bool * bool * N := (agree05m c, ok05m c, 0).
+
+Lemma ok05_peers c ps q : ok05 (base05 c ps q) = ok05 (base05 c [] q).
+Proof. reflexivity. Qed.
+
+Lemma model_call_end_sound b e o :
+  wf05 b = true -> model_call b (Some e) = Some o -> obs_eqb o (k_obs b) = true -> ok05 b = true.
+Proof.
+  intros Hwf Hm Ho. unfold model_call in Hm.
+  destruct (replay _ _ _ _ _ _) as [s consistent] eqn:Hrep.
+  destruct consistent; [|discriminate].
+  destruct (s_res s) eqn:Hres; [discriminate|].
+  unfold step_p in Hm. rewrite Hres in Hm.
+  apply replay_run in Hrep.
+  rewrite (run_p_eq (k_drift b) (vhdr_tvp (k_trust b)) (k_maxcap b) (k_from b)) in Hrep.
+  unfold wf05 in Hwf.
+  apply andb_prop in Hwf as [Hwf Hper]. apply andb_prop in Hwf as [Hwf Ht]. apply andb_prop in Hwf as [Hwf Hf].
+  apply N.ltb_lt in Hf.
+  unfold ok05.
+  destruct e; cbn [end_event] in Hm; unfold set_res, model_obs in Hm; cbn [s_res] in Hm; injection Hm as <-;
+    destruct (k_obs b) eqn:Hobs; try discriminate; try reflexivity.
+  apply negb_true_iff. unfold degenerate. apply N.leb_gt.
+  destruct (N.le_gt_cases (k_to b) (h_height (k_from b) + 1)) as [Hdeg|]; [exfalso | assumption].
+  pose proof (degenerate_is_error (k_drift b) (recovered (vhdr_tvp (k_trust b))) (k_maxcap b) (k_per b) (k_from b)
+                                  (k_to b) (k_peers b) (log_events (k_log b)) Hf Hdeg) as Herr.
+  unfold GetRangeByHeight in Herr. rewrite <- Hrep in Herr. congruence.
+Qed.
+
+Lemma agree_calls_sound c : forall qs peers,
+  agree_calls c peers qs = true -> forallb (fun q => ok05 (base05 c [] q)) qs = true.
+Proof.
+  induction qs as [|q qs IH]; intros peers H; [reflexivity|].
+  cbn [agree_calls] in H. cbn [forallb].
+  apply andb_prop in H as [H Hrest]. apply andb_prop in H as [H _]. apply andb_prop in H as [Hwf Hm].
+  apply andb_true_intro. split; [|exact (IH _ Hrest)].
+  rewrite <- (ok05_peers c peers q).
+  destruct (model_call (base05 c peers q) (q_end q)) as [o|] eqn:Hmc; [|discriminate].
+  destruct (q_end q) as [e|].
+  - exact (model_call_end_sound _ e o Hwf Hmc Hm).
+  - apply chk05_sound. rewrite Hwf. cbn [andb]. unfold agree05. cbn [model_call] in Hmc. rewrite Hmc. exact Hm.
+Qed.
+
+Theorem chk05m_sound : forall c, agree05m c = true -> ok05m c = true.
+Proof. intros c H. exact (agree_calls_sound c _ _ H). Qed.
+
+(** ** statements about the end events, for ALL event lists (Props/C05_more.v) *)
+
+Lemma run_p_app drift tvp maxcap from : forall l1 l2 s,
+  run_p drift tvp maxcap from s (l1 ++ l2) = run_p drift tvp maxcap from (run_p drift tvp maxcap from s l1) l2.
+Proof. induction l1 as [|ev l1 IH]; intros l2 s; [reflexivity|]. cbn [app run_p]. apply IH. Qed.
+
+Lemma run_p_done drift tvp maxcap from s evs r :
+  s_res s = Some r -> run_p drift tvp maxcap from s evs = s.
+Proof. intros Hr. rewrite run_p_eq. exact (run_done _ _ _ _ _ _ _ Hr). Qed.
+
+(** while the call is waiting, the end of the caller's context makes it return the context's error,
+    Exchange.Stop makes it return "exchange is closed" - whatever is queued or in flight *)
+Lemma waiting_call_ends drift tvp maxcap per from to peers evs :
+  GetRangeByHeight_p drift tvp maxcap per from to peers evs = None ->
+  GetRangeByHeight_p drift tvp maxcap per from to peers (evs ++ [ECtxDone]) = Some (RErr ECtx) /\
+  GetRangeByHeight_p drift tvp maxcap per from to peers (evs ++ [EStop]) = Some (RErr EClosed).
+Proof.
+  unfold GetRangeByHeight_p. intros H. rewrite !run_p_app. cbn [run_p]. unfold step_p. rewrite H.
+  split; reflexivity.
+Qed.
+
+(** a returned call has returned: no later event (a late answer, the context, Stop) changes the result *)
+Lemma result_is_final drift tvp maxcap per from to peers evs more r :
+  GetRangeByHeight_p drift tvp maxcap per from to peers evs = Some r ->
+  GetRangeByHeight_p drift tvp maxcap per from to peers (evs ++ more) = Some r.
+Proof.
+  unfold GetRangeByHeight_p. intros H. rewrite run_p_app. rewrite (run_p_done _ _ _ _ _ more r H). exact H.
+Qed.
+
+(** the context's error / "exchange is closed" is returned only if that event happened while the call waited *)
+Lemma ctx_error_has_ctx_event drift tvp maxcap per from to peers evs :
+  h_height from < two64 -> to < two64 -> 1 <= per ->
+  (GetRangeByHeight_p drift tvp maxcap per from to peers evs = Some (RErr ECtx) -> In ECtxDone evs) /\
+  (GetRangeByHeight_p drift tvp maxcap per from to peers evs = Some (RErr EClosed) -> In EStop evs).
+Proof.
+  intros Hf Ht Hper. rewrite outcome_p_eq.
+  split; intros H;
+    destruct (errors_have_a_cause _ _ _ _ _ _ _ _ _ Hf Ht Hper H) as [(He & _)|[(He & Hx)|[(He & Hx)|(He & _)]]];
+    try discriminate; exact Hx.
+Qed.
+
+(** ** consecutive calls: a session only ever uses the peers it started with *)
+
+(** the peers a session can still hand a request to, or is waiting for *)
+Definition known (s : sess) : list N := s_idle s ++ map fst (s_flight s).
+
+Lemma remove_peer_sub q l l' : remove_peer q l = Some l' -> In q l /\ forall x, In x l' -> In x l.
+Proof.
+  revert l'. induction l as [|a l IH]; intros l'; cbn [remove_peer]; [discriminate|].
+  destruct (N.eqb_spec q a) as [->|Hn].
+  - intros [= <-]. split; [left; reflexivity | intros x Hx; right; exact Hx].
+  - destruct (remove_peer q l) as [t|]; [|discriminate]. intros [= <-].
+    destruct (IH t eq_refl) as [Hin Hsub]. split; [right; exact Hin|].
+    intros x [<-|Hx]; [left; reflexivity | right; apply Hsub, Hx].
+Qed.
+
+Lemma step_known drift tv maxcap from s ev x :
+  In x (known (step drift tv maxcap from s ev)) -> In x (known s).
+Proof.
+  unfold step. destruct (s_res s); [auto|].
+  destruct ev as [p r|p now fs| |]; try (unfold known, set_res; cbn [s_idle s_flight]; auto; fail).
+  - destruct (remove_peer p (s_idle s)) as [idle'|] eqn:Hrp; [|auto].
+    destruct (remove_req r (s_queue s)); [|auto].
+    destruct (remove_peer_sub _ _ _ Hrp) as [Hin Hsub].
+    unfold known. cbn [s_idle s_flight map fst]. rewrite !in_app_iff. cbn [In].
+    intros [H|[<-|H]]; auto.
+  - destruct (take_flight p (s_flight s)) as [[r fl]|] eqn:Htf; [|auto].
+    destruct (take_flight_spec _ _ _ _ Htf) as (Hin & _ & _ & Hsub).
+    assert (Hp : In p (map fst (s_flight s))) by (apply (in_map fst) in Hin; exact Hin).
+    assert (Hfl : forall y, In y (map fst fl) -> In y (map fst (s_flight s))).
+    { intros y Hy. apply in_map_iff in Hy as (z & <- & Hz). apply in_map, Hsub, Hz. }
+    destruct (do_request now drift tv from r fs) as [e|h|].
+    + unfold known. cbn [s_idle s_flight]. rewrite !in_app_iff.
+      destruct e; rewrite ?in_app_iff; cbn [In]; intuition (subst; auto).
+    + destruct (if 0 <? remaining r h then _ else _) as [bad|rq].
+      * unfold known, set_res. cbn [s_idle s_flight]. auto.
+      * unfold known. cbn [s_idle s_flight]. rewrite !in_app_iff. cbn [In]. intuition (subst; auto).
+    + unfold known, set_res. cbn [s_idle s_flight]. auto.
+Qed.
+
+Lemma run_known drift tv maxcap from evs : forall s x,
+  In x (known (run drift tv maxcap from s evs)) -> In x (known s).
+Proof.
+  induction evs as [|ev evs IH]; intros s x; cbn [run]; [auto|].
+  intros H. apply IH in H. exact (step_known _ _ _ _ _ _ _ H).
+Qed.
+
+(** whatever happens during a call, only peers of the set the session was created with
+    (peerTracker.peers() at that moment) are idle or in flight - and a request is handed to idle peers only *)
+Lemma session_uses_its_peers drift tvp maxcap per from to peers evs x :
+  In x (known (run_p drift tvp maxcap from (get_range maxcap per from to peers) evs)) -> In x peers.
+Proof.
+  rewrite run_p_eq. intros H. apply run_known in H.
+  unfold get_range in H.
+  destruct (_ || _) in H; [unfold known, done in H; cbn in H; rewrite app_nil_r in H; exact H|].
+  destruct (prepare_requests _ _ _ _) in H; try (unfold known, done in H; cbn in H; rewrite app_nil_r in H; exact H).
+  destruct (_ <? _) in H; unfold known, done in H; cbn in H; rewrite app_nil_r in H; exact H.
+Qed.
+
+(** the next call's session starts without the peers the earlier call blocked *)
+Lemma unblocked_spec b peers x :
+  In x (unblocked b peers) <-> In x peers /\ ~ In x (blocked_by b).
+Proof.
+  unfold unblocked. rewrite filter_In. split; intros [H1 H2]; (split; [exact H1|]).
+  - intros Hb. apply negb_true_iff in H2. 
+    assert (E : existsb (N.eqb x) (blocked_by b) = true) by (apply existsb_exists; exists x; split; [exact Hb | apply N.eqb_refl]).
+    congruence.
+  - apply negb_true_iff. destruct (existsb (N.eqb x) (blocked_by b)) eqn:E; [|reflexivity].
+    apply existsb_exists in E as (y & Hy & Heq). apply N.eqb_eq in Heq. subst y. contradiction.
+Qed.
+
+Lemma blocked_peer_is_not_used_again b drift tvp maxcap per from to peers evs x :
+  In x (blocked_by b) ->
+  ~ In x (known (run_p drift tvp maxcap from (get_range maxcap per from to (unblocked b peers)) evs)).
+Proof.
+  intros Hb H. apply session_uses_its_peers in H. apply unblocked_spec in H. tauto.
+Qed.
